@@ -3486,7 +3486,10 @@ Box<ITV>
       // and use this to refine the appropriate bound.
       bool included;
       PPL_DIRTY_TEMP_COEFFICIENT(denom);
-      if (minimize(revised_lb_expr, numer_lower, denom, included)) {
+      // Note: if `var' does not occur in `ub_expr' no bound for `var'
+      // can be derived (and the quotient below would have denominator 0).
+      if (ub_var_coeff != 0
+          && minimize(revised_lb_expr, numer_lower, denom, included)) {
         denom_lower *= (denom * ub_var_coeff);
         PPL_DIRTY_TEMP(mpq_class, q);
         assign_r(q.get_num(), numer_lower, ROUND_NOT_NEEDED);
@@ -3525,7 +3528,10 @@ Box<ITV>
       // and use this to refine the appropriate bound.
       bool included;
       PPL_DIRTY_TEMP_COEFFICIENT(denom);
-      if (maximize(revised_ub_expr, numer_upper, denom, included)) {
+      // Note: if `var' does not occur in `lb_expr' no bound for `var'
+      // can be derived (and the quotient below would have denominator 0).
+      if (lb_var_coeff != 0
+          && maximize(revised_ub_expr, numer_upper, denom, included)) {
         denom_upper *= (denom * lb_var_coeff);
         PPL_DIRTY_TEMP(mpq_class, q);
         assign_r(q.get_num(), numer_upper, ROUND_NOT_NEEDED);
